@@ -396,6 +396,35 @@ func cmdCheck(prop, tier string, rest []string) int {
 		exit = 1
 	}
 
+	// bounded stand-ins (labelled bounded, never counted as proved)
+	var standinEv []map[string]interface{}
+	for _, r := range e.runStandins(prop, tier, scratch) {
+		if r.MachineKO != "" {
+			return fail(fmt.Errorf("%s\n%s", r.MachineKO, r.Output))
+		}
+		rec := map[string]interface{}{
+			"label":   "BOUNDED stand-in, not a proof",
+			"name":    r.Spec.Name,
+			"covers":  r.Spec.Covers,
+			"bound":   strings.Replace(r.Spec.BoundText, "$BOUND", r.Bound, -1),
+			"method":  "in-package Go test injected with go test -overlay, run against the real code of the working tree and compared with a byte-array model",
+			"result":  map[bool]string{true: "pass", false: "FAIL"}[r.Passed],
+			"summary": r.Summary,
+			"seconds": r.Seconds,
+		}
+		if !r.Passed {
+			rec["failures"] = r.Failures
+			nFail++
+			ob := &Obligation{Name: prop + ":bounded(" + r.Spec.Name + ")", Kind: "bounded-standin", Desc: r.Spec.Covers, Status: "failed", Model: strings.Join(r.Failures, "\n") + "\n\n" + r.Output}
+			replay := e.writeReplay(prop, ob)
+			// a failing operation sequence on the real code is a concrete input
+			fmt.Printf("VIOLATION property=%s replay=%s obligation=%s input=%q\n", prop, replay, ob.Name, strings.Join(r.Failures, " | "))
+			failedList = append(failedList, map[string]interface{}{"name": ob.Name, "status": "bounded-standin-failed", "clause": strings.Join(r.Failures, " | ")})
+			exit = 1
+		}
+		standinEv = append(standinEv, rec)
+	}
+
 	// assumptions
 	assume := map[string]bool{}
 	var abstracted, warnings, arithMath []string
@@ -467,6 +496,7 @@ func cmdCheck(prop, tier string, rest []string) int {
 			"functions_under_contract":   funcs,
 			"samples":                    samples,
 			"discharged_by_solver":       bySolver,
+			"bounded_standins":           standinEv,
 			"solver_time_s":              float64(solverMs) / 1000,
 			"failed":                     failedList,
 			"known_finding_obligations":  knownObs,
